@@ -41,4 +41,18 @@ PDecScalar(k, b) ==
 TagVarint(num, wt) == IF num < 268435456 THEN VarintN(num * 8 + wt)
                       ELSE \* num*8 overflows TLC's 32-bit integers: split off the low 7-bit group by hand
                            <<128 + (((num % 16) * 8 + wt) % 128)>> \o VarintN(num \div 16)
-=============================================================================
+\* ---- tag decoder on arbitrary bytes (ConsumeTag / ConsumeTagWithoutMove) ----
+\* the tag is a varint v; field number = v >> 3, wire type = v & 7.  A number that does not fit 31 bits, or the number 0, is an
+\* error.  Numbers 1 .. 2^29-1 are valid; 2^29 .. 2^31-1 are invalid for the reference and passed on by the library as numbers no
+\* schema declares: not fixed here ("unspec").
+TagIn(b) ==
+  LET r == DecVarint(b, 1) IN
+  IF ~r.ok THEN [st |-> "err", num |-> 0, wt |-> 0, n |-> 0]
+  ELSE LET v == r.be8
+           big == v[1] # 0 \/ v[2] # 0 \/ v[3] # 0 \/ v[4] >= 4                    \* v >= 2^34
+           num == v[4] * 536870912 + v[5] * 2097152 + v[6] * 8192 + v[7] * 32 + (v[8] \div 8) IN
+       IF big THEN [st |-> "err", num |-> 0, wt |-> 0, n |-> 0]
+       ELSE IF num = 0 THEN [st |-> "err", num |-> 0, wt |-> 0, n |-> 0]
+       ELSE IF num > 536870911 THEN [st |-> "unspec", num |-> num, wt |-> v[8] % 8, n |-> r.n]
+       ELSE [st |-> "ok", num |-> num, wt |-> v[8] % 8, n |-> r.n]
+=========================================================================
